@@ -473,3 +473,27 @@ Qed.
 Lemma ble_frag_sizes8 : forall fs op tid iid data frs,
     8 <= fs -> ble_encode fs op tid iid data = Ok frs -> Forall (fun f => length f <= fs) frs.
 Proof. intros fs op tid iid data frs H. apply ble_frag_sizes. lia. Qed.
+
+(* ---------------------------------------------------------------- negotiated size: plain and secure session *)
+Lemma ble_session_fits seal open :
+  (forall n m, open n (seal n m) = Some m) -> (forall n m, length (seal n m) = length m + 16) ->
+  forall (enc : bool) mtu mwwr op tid iid data ctr,
+    24 <= att_budget mtu mwwr ->
+    (op < 256)%N -> (tid < 256)%N -> (iid < 65536)%N -> (N.of_nat (length data) < 65536)%N ->
+    exists ws frs,
+      ble_session_write seal enc ctr mtu mwwr op tid iid data = Ok (ws, (ctr + N.of_nat (length ws))%N)
+      /\ Forall (fun w => length w <= att_budget mtu mwwr) ws
+      /\ open_seq (if enc then open else open_plain) ctr ws = Some frs
+      /\ acc_reassemble frs = Some (op, tid, iid, data).
+Proof.
+  intros Hos Hlen enc mtu mwwr op tid iid data ctr HB H1 H2 H3 Hl.
+  unfold ble_session_write, det_fs. destruct enc.
+  - destruct (ble_write_ok seal open Hos (att_budget mtu mwwr - 16) op tid iid data ctr) as [ws [frs [E [Ho [Ha [_ Hk]]]]]];
+      try assumption; [lia|].
+    exists ws, frs. split; [exact E|]. split; [|split; assumption].
+    specialize (Hk 16 Hlen). eapply Forall_impl; [|exact Hk]. cbn. intros w Hw. lia.
+  - destruct (ble_write_ok seal_plain open_plain open_seal_plain (att_budget mtu mwwr - 0) op tid iid data ctr)
+      as [ws [frs [E [Ho [Ha [_ Hk]]]]]]; try assumption; [lia|].
+    exists ws, frs. split; [exact E|]. split; [|split; assumption].
+    specialize (Hk 0). eapply Forall_impl; [|apply Hk; intros; unfold seal_plain; lia]. cbn. intros w Hw. lia.
+Qed.
